@@ -68,11 +68,21 @@ class WireManagerBase(abc.ABC):
         return True
 
     def check_consistency(self) -> None:
-        """Raises an error if not all wires have the same count"""
+        """Raises an error if not all wires have the same count
+        or if a wire has a different count than a coincident wire of another block"""
         counts = [wire.grading.count for wire in self.wires]
         if len(set(counts)) != 1:
             wire_descriptions = [str(wire) for wire in self.wires]
             raise InconsistentGradingsError(f"Inconsistent counts on wires {wire_descriptions} ({counts})")
+
+        # the same edge in a neighbouring block must carry the same count
+        for wire in self.wires:
+            for coincident in wire.coincidents:
+                if coincident.grading.count != wire.grading.count:
+                    raise InconsistentGradingsError(
+                        f"Inconsistent counts on coincident wires {wire} ({wire.grading.count}) "
+                        f"and {coincident} ({coincident.grading.count})"
+                    )
 
 
 class WireChopManager(WireManagerBase):
